@@ -63,8 +63,8 @@ func NewKafkaMdm(key string, matcher matcher.Matcher, topic, codec, schemasFile,
 	if bufSize < 0 || flushMaxNum < 0 {
 		return nil, fmt.Errorf("kafkaMdm %q: bufSize and flushMaxNum can not be negative", key)
 	}
-	if flushMaxWait <= 0 {
-		return nil, fmt.Errorf("kafkaMdm %q: flushMaxWait must be > 0", key)
+	if flushMaxWait <= 0 || int64(flushMaxWait) > maxFlushMaxWait {
+		return nil, fmt.Errorf("kafkaMdm %q: flushMaxWait must be > 0 and at most %d", key, maxFlushMaxWait)
 	}
 
 	cleanAddr := util.AddrToPath(brokers[0])
